@@ -69,7 +69,18 @@ claimed.update({
                 note="Outside: TPROXY/mangle, DNS capture, IPv6 parity (unless listed in the evidence), nftables, CNI in-pod rules, conntrack state, kernel semantics beyond the modelled matches.", ref="§4 C20"),
 })
 
+claimed.update({
+    "C08": dict(text="Differential check for every request: the RBAC policy generated by authz/model.New + Model.Generate (HTTP and TCP, ALLOW and DENY) is evaluated by a reference Envoy RBAC matcher "
+                     "(and/or/not ids and rules, header/url_path/destination_port/authenticated/metadata matchers, safe_regex by structural translation) and compared with a reference reading of the AuthorizationPolicy rule "
+                     "(values OR, notValues NOT(OR), exact/prefix*/*suffix/* forms for methods, paths, hosts, ports, principals, namespaces, requestPrincipals); TCP: an ALLOW rule with an HTTP-only field generates nothing, "
+                     "a DENY rule matches exactly on its remaining conditions. The request (method, path, host, port, SPIFFE peer identity parts, JWT iss/sub) is symbolic.",
+                note="Outside: policy selection for a workload and filter ordering (builder.go), CUSTOM/AUDIT/dry-run, when-conditions, ipBlocks, path templates, trust-domain aliases, case folding. Open finding F10 (namespace suffix wildcard) is listed in KNOWN_FINDINGS.json.", ref="§4 C08"),
+})
+
 na = {
+    "C16": "krt (pkg/kube/krt) is built from generics instantiated over interface-typed collections, reflection-driven equality, unbounded goroutine/queue fan-out per handler and informer machinery; "
+           "a symbolic run needs hundreds of thousands of interpreted instructions per event before the first branch on input and the per-handler queues multiply schedules beyond the pre-emption bound the engine can cover; "
+           "the property is about long random histories against an independent recomputation, which is a testing/model-based technique, not a bounded solver query over the real code. Not attempted with this technique.",
 }
 
 def main():
